@@ -106,6 +106,50 @@ func init() {
 			},
 			Final: finalInvariants}
 	})
+	// the session's only member, who inserted two planes, departs while a
+	// newcomer joins: if the newcomer got in, the session lived on and its
+	// index must still hold both planes (C20: retained while the session lives)
+	for _, how := range []string{"close", "switch"} {
+		how := how
+		registerBlock("c20-lastleave-vs-join-"+how, func() *Block {
+			return &Block{Cfg: allMods,
+				Setup: func(x *Ctx) {
+					x.conn("a", "b")
+					x.join("a", "")
+					x.C["a"].SendMsg(quadMsg(x, 1))
+					x.C["a"].SendMsg(quadMsg(x, 9))
+					x.W.Run()
+					x.C["a"].Take()
+				},
+				Fire: func(x *Ctx) {
+					m, rid := joinReq(x.W, x.C["b"], x.J["a"].SessionID)
+					x.Vars["rid"] = rid
+					x.Vars["uuid"] = x.J["a"].UUID
+					x.C["b"].SendMsg(m)
+					if how == "close" {
+						x.C["a"].Close()
+					} else {
+						m2, _ := joinReq(x.W, x.C["a"], "")
+						x.C["a"].SendMsg(m2)
+					}
+				},
+				Check: func(x *Ctx) {
+					ji := parseJoin(x.C["b"].Take(), x.Vars["rid"].(uint32))
+					delete(x.J, "a")
+					if !ji.OK {
+						return // the session ended before b got in
+					}
+					x.J["b"] = ji
+					if ji.UUID != x.Vars["uuid"].(string) {
+						return // the old session ended and its id was issued again to the session a created
+					}
+					if n := regionCount(x, "b"); n != 2 {
+						x.fail("groundplane", fmt.Sprintf("planes-lost-while-session-lives:%d-of-2", n), "the session's only member had inserted two disjoint samples and departed while b joined; b got in (the session never ended) but its covering region query returns %d planes", n)
+					}
+				},
+				Final: finalInvariants}
+		})
+	}
 	// two first joins of a fresh session: creation of the modules' shared state
 	registerBlock("c09-first-joins", func() *Block {
 		return &Block{Cfg: allMods,
